@@ -87,6 +87,9 @@ MoreLeaves(x) ==
         CmpC("ge", MCall(At(x, "items"), "count", IntV(0)), LitI(1)),
         \* a user predicate whose body builds and evaluates a query of its own
         PredC("p_qge2", <<At(x, "n")>>, "fn"),
+        \* a predicate called on constants only (it is still a condition evaluated with the query, not while it is built)
+        PredC("p_pos", <<LitI(1)>>, "fn"),
+        PredC("p_lt", <<LitI(2), LitI(1)>>, "fn"),
         \* conditions that mention no variable at all (a constant membership test): true or false for every binding
         InC(LitI(1), LitL(<<0, 1>>), "in_"),
         InC(LitI(2), LitL(<<0, 1>>), "contains") >>
@@ -150,7 +153,7 @@ OuterG3 == << CmpC("ge", At(V(1), "n"), LitI(1)), CmpC("eq", At(V(1), "m"), LitI
               CmpC("ne", At(V(1), "s"), LitS(<<>>)) >>
 
 (* ---- G7: flatten.  x = V(1); the flattened expression is slot Flat(1) ----*)
-FlatSources(kind) == IF kind = "int" THEN << At(V(1), "items"), At(V(1), "t"), At(V(1), "n") >>
+FlatSources(kind) == IF kind = "int" THEN << At(V(1), "items"), At(V(1), "t"), At(V(1), "n"), MCall(V(1), "items_copy", NoArg) >>
                      ELSE IF kind = "opt" THEN << At(V(1), "o"), At(V(1), "items") >>      \* o: a scalar that is None or an int
                      ELSE << At(V(1), "refs"), At(V(1), "ref") >>
 LeavesG7(kind) ==
@@ -246,6 +249,8 @@ Heads ==
      RuleHead("PF", <<HeadArg("a", At(y, "s")), HeadArg("b", x), HeadArg("c", LitI(1))>>),
      \* a field with a non-None default given explicitly as None
      RuleHead("PD", <<HeadArg("a", x), HeadArg("b", y), HeadArg("c", LitNone)>>),
+     \* a class whose instances are callable: the inferred instance is a value, it is not called
+     RuleHead("PC", <<HeadArg("a", x), HeadArg("b", At(y, "n"))>>),
      \* a constructor argument that is a sub-query: the argument ranges over the sub-query's solutions
      RuleHead("P", <<HeadArg("a", x), HeadArg("b", SubE(2, CmpC("ge", At(y, "n"), LitI(1)), "an"))>>),
      \* an argument sub-query whose condition binds a variable that a later argument uses: the arguments stay joined
